@@ -410,6 +410,63 @@ class RealTap(_Tap):
                           kw={'dryRun': dryRun, 'data': data})
 
 
+def tap_instance(t, idx, real, site):
+    """Tap a real pysmi component in place (an instance attribute shadows the method).  The object handed to
+    MibCompiler keeps its class, its __str__/__eq__ and its options - everything a wrapper object would hide from
+    code that compares, prints or reconfigures the components it is given."""
+    tap = _Tap(t)
+    if site in ('src.getData', 'borrower.getData'):
+        orig = real.getData
+
+        def getData(mibname, **options):
+            if site == 'src.getData':
+                t.lookup = mibname
+            return tap._call(site, idx, mibname, lambda: orig(mibname, **options), kw={'genTexts': options.get('genTexts')},
+                             payload=lambda r: digest(r[1]) if isinstance(r, tuple) else None)
+        real.getData = getData
+    elif site == 'searcher.fileExists':
+        orig = real.fileExists
+
+        def fileExists(mibname, mtime, rebuild=False):
+            return tap._call(site, idx, mibname, lambda: orig(mibname, mtime, rebuild=rebuild), kw={'mtime': mtime, 'rebuild': rebuild})
+        real.fileExists = fileExists
+    elif site == 'writer.putData':
+        orig = real.putData
+
+        def putData(mibname, data, comments=(), dryRun=False):
+            return tap._call(site, 0, mibname, lambda: orig(mibname, data, comments=comments, dryRun=dryRun), kw={'dryRun': dryRun, 'data': data})
+        real.putData = putData
+    else:
+        raise ValueError(site)
+    return real
+
+
+def _shared_fetch(mibname, ctx):
+    """The one look-up function behind every CallbackReader source of a world; which repository is meant comes with
+    the context argument (so all these readers print alike)."""
+    src = ctx
+    o, text = src._text_for(mibname)
+    if o == 'ok':
+        src._t.world.probe('source-served')
+        return text
+    if o == 'error':
+        from pysmi import error
+        src._t.world.fired['source-error'] = src._t.world.fired.get('source-error', 0) + 1
+        raise error.PySmiReaderError('simulated reader failure for %s' % mibname)
+    return None
+
+
+def make_borrower(t, i, b, reader):
+    """A real AnyFileBorrower; its flavour is given to the constructor or set afterwards through setOptions()"""
+    from pysmi.borrower.anyfile import AnyFileBorrower
+    if b.get('late_flavour'):
+        br = AnyFileBorrower(reader)
+        br.setOptions(genTexts=b.get('genTexts', False))
+    else:
+        br = AnyFileBorrower(reader, genTexts=b.get('genTexts', False))
+    return br
+
+
 def build_real_world(t, scn, root):
     """Materialise the scenario on the scratch filesystem and return real components behind taps."""
     import os
@@ -442,9 +499,15 @@ def build_real_world(t, scn, root):
                     if h.get('variants', {}).get(m):
                         sp['variant'] = h['variants'][m]
                     parts.append(mibgen.render(sp, specs))
-                with open(os.path.join(d, name), 'w') as f:
+                fname = name
+                if s.get('index') and not s.get('zip'):
+                    # found only through the directory's .index file
+                    fname = 'x-%s.dat' % name.lower()
+                    with open(os.path.join(d, '.index'), 'a') as f:
+                        f.write('%s %s\n' % (name, fname))
+                with open(os.path.join(d, fname), 'w') as f:
                     f.write('\n'.join(parts))
-                os.utime(os.path.join(d, name), (s.get('mtime', core.EPOCH0), s.get('mtime', core.EPOCH0)))
+                os.utime(os.path.join(d, fname), (s.get('mtime', core.EPOCH0), s.get('mtime', core.EPOCH0)))
             if s.get('zip'):
                 import zipfile
                 from pysmi.reader.zipreader import ZipReader
@@ -455,10 +518,10 @@ def build_real_world(t, scn, root):
                 rd = ZipReader(zp, ignoreErrors=not s.get('strict', False))
             else:
                 rd = FileReader(d, ignoreErrors=not s.get('strict', False))
-            sources.append(RealTap(t, i, rd, 'src.getData'))
+            sources.append(tap_instance(t, i, rd, 'src.getData'))
         for i, se in enumerate(scn.get('searchers', ())):
             if se.get('flavour') in ('stub', 'realstub'):
-                searchers.append(RealTap(t, i, StubSearcher(*[n for n, a in sorted(se.get('answers', {}).items()) if a == 'fresh']), 'searcher.fileExists'))
+                searchers.append(tap_instance(t, i, StubSearcher(*[n for n, a in sorted(se.get('answers', {}).items()) if a == 'fresh']), 'searcher.fileExists'))
             else:
                 for n, a in sorted(se.get('answers', {}).items()):
                     if a in ('fresh', 'stale'):
@@ -467,7 +530,7 @@ def build_real_world(t, scn, root):
                             f.write('{"old": "%s"}\n' % n)
                         tt = core.EPOCH0 + (10 if a == 'fresh' else -100000)
                         os.utime(p, (tt, tt))
-                searchers.append(RealTap(t, i, AnyFileSearcher(dst).setOptions(exts=['.json']), 'searcher.fileExists'))
+                searchers.append(tap_instance(t, i, AnyFileSearcher(dst).setOptions(exts=['.json']), 'searcher.fileExists'))
         for i, b in enumerate(scn.get('borrowers', ())):
             d = os.path.join(root, 'bor%d' % i)
             os.makedirs(d)
@@ -475,9 +538,9 @@ def build_real_world(t, scn, root):
                 if o == 'ok':
                     with open(os.path.join(d, n + '.json'), 'w') as f:
                         f.write('{"borrowed": "%s", "from": %d}\n' % (n, i))
-            br = AnyFileBorrower(FileReader(d), genTexts=b.get('genTexts', False)).setOptions(exts=['.json'])
-            borrowers.append(TapBorrower(t, i, br))
-    writer = RealTap(t, 0, FileWriter(dst).setOptions(suffix='.json'), 'writer.putData')
+            br = make_borrower(t, i, b, FileReader(d)).setOptions(exts=['.json'])
+            borrowers.append(tap_instance(t, i, br, 'borrower.getData'))
+    writer = tap_instance(t, 0, FileWriter(dst).setOptions(suffix='.json'), 'writer.putData')
     return sources, searchers, borrowers, writer, dst
 
 
@@ -519,9 +582,23 @@ def run_world(scn, root=None, writer=None, extra_setup=None):
         comp.addSearchers(*real[1])
         comp.addBorrowers(*real[2])
     else:
-        comp.addSources(*[SimSource(t, i, s) for i, s in enumerate(t.scn.get('sources', ()))])
-        comp.addSearchers(*[SimSearcher(t, i, s) for i, s in enumerate(scn.get('searchers', ()))])
-        comp.addBorrowers(*[TapBorrower(t, i, AnyFileBorrower(SimBorrowReader(t, i, b), genTexts=b.get('genTexts', False)))
+        sims = [SimSource(t, i, s) for i, s in enumerate(t.scn.get('sources', ()))]
+        t.sim_sources = sims
+        if scn.get('callback_sources'):
+            # the same outcome tables behind real CallbackReader objects that share one look-up function
+            from pysmi.reader.callback import CallbackReader
+            comp.addSources(*[tap_instance(t, i, CallbackReader(_shared_fetch, sm), 'src.getData') for i, sm in enumerate(sims)])
+        else:
+            comp.addSources(*sims)
+        ses = []
+        for i, s in enumerate(scn.get('searchers', ())):
+            if s.get('flavour') == 'realstub':
+                from pysmi.searcher.stub import StubSearcher
+                ses.append(tap_instance(t, i, StubSearcher(*[n for n, a in sorted(s.get('answers', {}).items()) if a == 'fresh']), 'searcher.fileExists'))
+            else:
+                ses.append(SimSearcher(t, i, s))
+        comp.addSearchers(*ses)
+        comp.addBorrowers(*[tap_instance(t, i, make_borrower(t, i, b, SimBorrowReader(t, i, b)), 'borrower.getData')
                             for i, b in enumerate(scn.get('borrowers', ()))])
     if extra_setup is not None:
         extra_setup(comp, t)
@@ -534,7 +611,7 @@ def run_world(scn, root=None, writer=None, extra_setup=None):
             # a second compile() on the same long-lived compiler, after the sources changed
             first = copy.copy(t)
             first.scn = dict(t.scn, sources=copy.deepcopy(t.scn.get('sources', [])))    # what the sources held during the first call
-            srcs = list(comp._sources)
+            srcs = list(t.sim_sources)
             for i, names in sorted(sec.get('lose', {}).items()):
                 if int(i) < len(srcs):
                     for n in names:
@@ -660,7 +737,7 @@ def gen_world(rng, tier, focus='C07'):
     pdef = {'C07': 0.22, 'C08': 0.10, 'C09': 0.25, 'C19': 0.35, 'C10': 0.08}.get(focus, 0.2)
     if rng.random() < 0.3:
         pdef = 0.0
-    specs = mibgen.gen_modules(rng, n, cycles=True, defects=pdef, smiv1=0.1, oiddefval=0.2)
+    specs = mibgen.gen_modules(rng, n, cycles=True, defects=pdef, smiv1=0.1, oiddefval=0.2, shadow=0.1)
     names = list(specs)
     scn = {'modules': specs, 'codegen': 'pysnmp' if rng.random() < 0.04 else 'json', 'files': {}}
     # several modules in one file
@@ -694,6 +771,9 @@ def gen_world(rng, tier, focus='C07'):
     # sources
     ns = rng.choice([1, 1, 2, 2, 3])
     sources = [{'holds': {}, 'base': 'none', 'mtime': core.EPOCH0 - rng.choice([0, 1, 50, 5000])} for _ in range(ns)]
+    for s_ in sources:
+        if rng.random() < 0.06:
+            s_['mtime'] = rng.choice([0, 0, 1])       # stamped with the Epoch itself (normalised archives, reproducible builds)
     for name in names + sorted(scn.get('file_alias', {})):
         if name in scn.get('co_only', ()):
             continue
@@ -750,6 +830,8 @@ def gen_world(rng, tier, focus='C07'):
             elif r < 0.6:
                 holds[m] = 'error'
         borrowers.append({'genTexts': rng.random() < 0.5, 'holds': holds, 'mtime': core.EPOCH0 - rng.choice([0, 10, 10000])})
+        if rng.random() < 0.3:
+            borrowers[-1]['late_flavour'] = True      # flavour set through setOptions() after construction
     scn['borrowers'] = borrowers
     if rng.random() < 0.1:
         scn['writer_fail'] = [rng.choice(allnames)]
@@ -792,7 +874,9 @@ def gen_world(rng, tier, focus='C07'):
             scn['second']['respec'] = {m_: chg}
             if rng.random() < 0.7:
                 scn['second']['options']['rebuild'] = True
-    if focus in ('C07', 'C08') and rng.random() < 0.12:
+    if rng.random() < 0.12 and not scn.get('file_alias'):
+        scn['callback_sources'] = True     # real CallbackReader objects around one shared look-up function
+    if focus in ('C07', 'C08') and not scn.get('callback_sources') and rng.random() < 0.12:
         # names spelled in another case in IMPORTS; sources resolve them like the file readers do and report the
         # matching variant as alias
         scn['alias'] = True
@@ -806,6 +890,7 @@ def gen_world(rng, tier, focus='C07'):
         # the same scenario over the real FileReader / AnyFileSearcher / AnyFileBorrower / FileWriter on the
         # interposed filesystem; component failures then come from injected errno instead of outcome tables
         scn['realfs'] = True
+        scn.pop('callback_sources', None)
         scn.pop('second', None)
         scn.pop('inject', None)
         scn.pop('writer_fail', None)
@@ -815,8 +900,12 @@ def gen_world(rng, tier, focus='C07'):
         scn['listing_seed'] = rng.randrange(1 << 30)
         for s_ in scn['sources']:
             s_['strict'] = rng.random() < 0.5
-            if rng.random() < 0.3:
+            if rng.random() < 0.2:
+                s_['index'] = True
+            elif rng.random() < 0.3:
                 s_['zip'] = rng.choice([True, 'sub'])
+                if s_.get('mtime', core.EPOCH0) < 400000000:
+                    s_['mtime'] = core.EPOCH0 - 5000      # ZIP time stamps start in 1980
         if rng.random() < 0.15:
             scn['debug'] = True
         if rng.random() < 0.6:
